@@ -342,6 +342,14 @@ def programs(tier):
         if site == "while-body":
             return Block([Let("acc", Call("ref", Int(0))), Let("go_on", Call("ref", Bool(True))),
                           Do(While(Call("ref_get", Var("go_on")), Block([Do(Call("ref_set", Var("acc"), E)), Do(Call("ref_set", Var("go_on"), Bool(False)))], Unit)))], Call("ref_get", Var("acc")))
+        if site == "while-condition":        # evaluated once: the condition is false at once
+            return Block([Do(While(Bin(">", E, Int(100000)), Block([], Unit)))], Int(9))
+        if site == "if-condition":
+            return If(Bin(">", E, Int(500)), Int(1), Int(2))
+        if site == "match-scrutinee":
+            return Match(E, [(PInt(701), Int(1)), (PWild, Int(2))])
+        if site == "right-operand":
+            return Bin("+", Var("k"), E)
         if site == "closure-body":
             return Block([Let("c", Lam([("z", INT32)], Bin("+", E, Var("z"))))], CallV(Var("c"), Int(0)))
         if site == "closure-body-default-arm":
@@ -354,7 +362,8 @@ def programs(tier):
             return Proj(Tuple(Int(0), E), 1)
         raise ValueError(site)
     for site in ("match-default-arm", "match-literal-arm", "string-match-default", "string-match-literal-arm", "enum-arm", "bool-arm", "tuple-arm", "if-then", "if-else",
-                 "while-body", "closure-body", "closure-body-default-arm", "nested-block", "call-argument", "tuple-element"):
+                 "while-body", "closure-body", "closure-body-default-arm", "nested-block", "call-argument", "tuple-element",
+                 "while-condition", "if-condition", "match-scrutinee", "right-operand"):
         for how in ("inline", "annotated-let", "argument"):
             p = Program(f"c17_dynsite_{site.replace('-', '_')}_{how.replace('-', '_')}")
             decls(p)
